@@ -1245,6 +1245,18 @@ def b_anyall(is_any):
                         s2.heap['__cut__'] = True       # calls made by the body are not in the replay script
                 zs.append(z3.BoolVal(not is_any))
                 r = z3.Or(*zs) if is_any else z3.And(*zs)
+            elif isinstance(it, VMap):
+                # any/all over a symbolic dict / set-as-dict: iteration yields every key exactly once; for an
+                # effect-free body the order is irrelevant, so quantify over the keys in the domain
+                kv = z3.Const(fresh_name('gkey'), sort_of(it.kt))
+                cond, val, p = ex.gen_probe(s2, g, from_z3(kv, it.kt))
+                t = ex.truthy(p, val)
+                if len(p.calls) != len(s2.calls):
+                    raise Unsupported('any/all over a symbolic dict with a body that makes calls')
+                rng = z3.Select(it.dom, kv)
+                r = z3.Exists([kv], z3.And(rng, cond, t)) if is_any else \
+                    z3.ForAll([kv], z3.Implies(z3.And(rng, cond), t))
+                s2.heap['__cut__'] = True
             else:
                 k = z3.Int(fresh_name('gk'))
                 cond, val, p = ex.gen_probe(s2, g, _sym_elem(it, k))
